@@ -406,3 +406,10 @@ Definition mconcatenate (ms : list Mx) (ax : Z) : option Mx :=
 Definition out (a : Mx) : Z * mat * Z := (bits a, dat a, to_wv a).
 Definition outo (a : option Mx) : option (Z * mat * Z) :=
   match a with None => None | Some a => Some (out a) end.
+
+(* with the max_bits attribute, and chaining of operations (op2 (op1 A) B) for the harness *)
+Definition outx (a : Mx) : Z * mat * Z * Z := (bits a, dat a, to_wv a, maxb a).
+Definition outxo (a : option Mx) : option (Z * mat * Z * Z) :=
+  match a with None => None | Some a => Some (outx a) end.
+Definition obind (a : option Mx) (f : Mx -> option Mx) : option Mx :=
+  match a with None => None | Some a => f a end.
